@@ -453,7 +453,37 @@ def reader_conventions(rep, prog, r_faces):
         rep.violation("C16.reader-conventions", prog, r_faces, None, "record length not verified", "read_cell_faces must compare the declared record length with the integers actually read")
 
 
+def rebase_every_cell(rep, prog):
+    """every cell::rebase() the writers perform before writing runs for every cell: no condition (other than the loop's own
+    bound) decides whether a cell is compacted"""
+    from ..model import facts_at
+    n = 0
+    for fn in prog.repo_functions():
+        if fn.get("cls") != "mesh_writer" or not isinstance(fn.get("body"), dict):
+            continue
+        fi = prog.index(fn)
+        for c in walk(fn["body"]):
+            if not (is_call(c) and c.get("callee") == "cell::rebase"):
+                continue
+            n += 1
+            loops = [l for l, _s, _c in fi.ancestors(c) if l.get("k") in ("ForStmt", "WhileStmt")]
+            loop_conds = [l.get("cond") for l in loops if isinstance(l.get("cond"), dict)]
+            extra = []
+            for a_, t_ in facts_at(fn, fi, c):
+                if any(render(a_).replace(" ", "") in render(lc).replace(" ", "") or render(a_).replace(" ", "") in render(__import__("sc3dlint.model", fromlist=["expand"]).expand(fn, lc)).replace(" ", "") for lc in loop_conds):
+                    continue
+                extra.append((a_, t_))
+            if extra:
+                a_, t_ = extra[0]
+                rep.violation("C16.compact-before-count", prog, fn, c, "only some cells are compacted before writing",
+                              "%s compacts a cell only when %s%s: a cell for which the condition fails keeps its free node / face slots, so the counts declared in the file (POINTS, CELLS, offsets of the later cells) no longer agree with what the loops over used elements write - the file cannot be read back" % (fn["qn"], "" if t_ else "not ", short(a_, 60)))
+            else:
+                rep.ok("C16.compact-before-count", prog, fn, c, "%s: every cell is compacted (rebase) before writing" % fn["qn"])
+    return n
+
+
 def compact_before_count(rep, prog, wfile):
+    rebase_every_cell(rep, prog)
     fi = prog.index(wfile)
     reb = [n for n in walk(wfile["body"]) if is_call(n) and n.get("callee") == "cell::rebase"]
     if len(reb) != 1:
